@@ -83,7 +83,11 @@ lattice)
         n=$((n+1)); tag="std${std:+no}-ds$ds-dc$dc-tf${tf//[+.,]/}"
         ( envs=""; [ $ds = 1 ] && envs="$envs CARGO_CFG_HTTPARSE_DISABLE_SIMD=1"; [ $dc = 1 ] && envs="$envs CARGO_CFG_HTTPARSE_DISABLE_SIMD_COMPILETIME=1"
           fl="$HOOKS"; [ -n "$tf" ] && fl="$fl -C target-feature=$tf"
-          if (cd "${VERIF_REPO:-/repo}" && env $envs RUSTFLAGS="$fl" cargo build --offline --lib --target-dir "$work/$tag" $std >"$work/$tag.log" 2>&1); then echo ok > "$work/$tag.res"; else echo fail > "$work/$tag.res"; fi
+          ok=1
+          (cd "${VERIF_REPO:-/repo}" && env $envs RUSTFLAGS="$fl" cargo build --offline --lib --target-dir "$work/$tag" $std >"$work/$tag.log" 2>&1) || ok=0
+          # the optimized profile compiles code that debug builds cfg out (cfg(not(debug_assertions)))
+          if [ $ok = 1 ]; then (cd "${VERIF_REPO:-/repo}" && env $envs RUSTFLAGS="$fl" cargo build --offline --lib --release --target-dir "$work/$tag" $std >>"$work/$tag.log" 2>&1) || ok=0; fi
+          if [ $ok = 1 ]; then echo ok > "$work/$tag.res"; else echo fail > "$work/$tag.res"; fi
           rm -rf "$work/$tag" ) &
         if (( n % 8 == 0 )); then wait; fi
     done; done; done; done; wait
